@@ -678,6 +678,8 @@ Exec(s, S) ==
     [] s.k = "begin" ->
          LET S1 == ExecList(s.b, S) IN
          IF Failed(S1) THEN Handle(s.hs, S1.err, S1) ELSE S1
+    \* assignments chained with commas, optionally ended by any other statement: executed in order as one statement
+    [] s.k = "chain" -> ExecList(s.ss, S)
     [] s.k = "func" ->
          LET fi == FindFunc(S, s.n, Len(s.ps))
              d  == [n |-> s.n, ps |-> s.ps, b |-> s.b] IN
@@ -814,6 +816,7 @@ RS(s) ==
     [] s.k = "return" -> IF s.e.k = "none" THEN "return;" ELSE "return " \o RE_(s.e) \o ";"
     [] s.k = "raise" -> "raise " \o s.n \o ";"
     [] s.k = "begin" -> "begin " \o RList(s.b) \o (IF s.hs = <<>> THEN "" ELSE " exception " \o RHandlers(s.hs)) \o " end;"
+    [] s.k = "chain" -> LET part(x) == LET t == RS(x) IN SubSeq(t, 1, Len(t) - 1) IN Join([i \in DOMAIN s.ss |-> part(s.ss[i])], ", ") \o ";"
     [] s.k = "func" -> "function " \o s.n \o "(" \o Join(s.ps, ", ") \o ") return undefined is begin " \o RList(s.b) \o " end;"
     [] OTHER -> "?;"
 
@@ -858,4 +861,5 @@ Begin(b, hs)    == [k |-> "begin", b |-> b, hs |-> hs]
 When(w, b)      == [w |-> w, b |-> b]
 Func(n, ps, b)  == [k |-> "func", n |-> n, ps |-> ps, b |-> b]
 Nop             == [k |-> "nop"]
+Chain(ss)       == [k |-> "chain", ss |-> ss]          \* let {, let} [, statement]
 =============================================================================
